@@ -108,18 +108,59 @@ func TabTypecode(p *load.Program) *report.RuleResult {
 		} else {
 			ef := ssau.TrackEnum(fn, matchPath(path))
 			seen := map[string]map[string]bool{}
+			// a helper that stores one of its parameters into valueType (readScalar(typ, readFn)):
+			// the store happens, for this rule, at the call, with the constant passed
+			paramStore := func(c ssa.CallInstruction) (int64, bool) {
+				g := load.Unwrap(c.Common().StaticCallee())
+				if g == nil || !p.InModule(g) || len(g.Blocks) == 0 {
+					return 0, false
+				}
+				for _, gb := range g.Blocks {
+					for _, gin := range gb.Instrs {
+						st, ok := gin.(*ssa.Store)
+						if !ok {
+							continue
+						}
+						if _, fl, ok := ssau.FieldOf(st.Addr); !ok || fl != "valueType" {
+							continue
+						}
+						prm, ok := st.Val.(*ssa.Parameter)
+						if !ok {
+							continue
+						}
+						for k, q := range g.Params {
+							if q == prm && k < len(c.Common().Args) {
+								if tv, ok := ssau.ConstInt(c.Common().Args[k]); ok {
+									return tv, true
+								}
+							}
+						}
+					}
+				}
+				return 0, false
+			}
 			for _, b := range fn.Blocks {
 				for _, in := range b.Instrs {
-					st, ok := in.(*ssa.Store)
-					if !ok {
-						continue
-					}
-					if _, fl, ok := ssau.FieldOf(st.Addr); !ok || fl != "valueType" {
-						continue
-					}
-					tv, ok := ssau.ConstInt(st.Val)
-					if !ok {
-						continue
+					var tv int64
+					if ci, isCall := in.(ssa.CallInstruction); isCall {
+						v, ok := paramStore(ci)
+						if !ok {
+							continue
+						}
+						tv = v
+					} else {
+						st, ok := in.(*ssa.Store)
+						if !ok {
+							continue
+						}
+						if _, fl, ok := ssau.FieldOf(st.Addr); !ok || fl != "valueType" {
+							continue
+						}
+						v, ok := ssau.ConstInt(st.Val)
+						if !ok {
+							continue
+						}
+						tv = v
 					}
 					vs, _ := ef.At(in)
 					if !vs.Known() {
@@ -147,6 +188,9 @@ func TabTypecode(p *load.Program) *report.RuleResult {
 				got := sortedKeys(seen[bc])
 				if len(got) == 1 && got[0] == want {
 					r.OK(p.FuncName(fn), p.Pos(fn.Pos()), what, "= "+want+" (spec)")
+				} else if len(got) == 0 {
+					// nothing extracted is not the same as something wrong extracted
+					r.Unknown(p.FuncName(fn), p.Pos(fn.Pos()), what, "no constant store of the value type found for this code in next or in a helper it passes the type to: the rule cannot decide (restructured dispatch?)")
 				} else {
 					r.Bad(p.FuncName(fn), p.Pos(fn.Pos()), what, "reader stores "+strings.Join(got, ",")+" for this code, Ion 1.0 says "+want)
 				}
@@ -652,9 +696,47 @@ func TabLstFields(p *load.Program) *report.RuleResult {
 		return (f.Object() == nil || !f.Object().Exported()) && f != w && f != rl && f != ri && f != is && f.Name() != "NewSymbolToken"
 	}
 	written := map[string]bool{}
-	for _, g := range helperClosure(p, w, unexp, 2) {
+	closure := helperClosure(p, w, unexp, 2)
+	for _, g := range closure {
 		for k := range stringArgsOf(g, "NewSymbolToken") {
 			written[k] = true
+		}
+		// writeTableFieldName(w, t, "imports"): the name is a parameter of the helper that calls
+		// NewSymbolToken; the constants are at the helper's call sites inside the closure
+		for _, b := range g.Blocks {
+			for _, in := range b.Instrs {
+				c, ok := in.(ssa.CallInstruction)
+				if !ok {
+					continue
+				}
+				sc := c.Common().StaticCallee()
+				if sc == nil || sc.Name() != "NewSymbolToken" {
+					continue
+				}
+				for _, a := range c.Common().Args {
+					prm, ok := unwrapIface(a).(*ssa.Parameter)
+					if !ok {
+						continue
+					}
+					idx := -1
+					for k, q := range g.Params {
+						if q == prm {
+							idx = k
+						}
+					}
+					for _, h := range closure {
+						for _, hb := range h.Blocks {
+							for _, hin := range hb.Instrs {
+								if hc, ok := hin.(ssa.CallInstruction); ok && load.Unwrap(hc.Common().StaticCallee()) == g && idx >= 0 && idx < len(hc.Common().Args) {
+									if sv, ok := ssau.ConstString(unwrapIface(hc.Common().Args[idx])); ok {
+										written[sv] = true
+									}
+								}
+							}
+						}
+					}
+				}
+			}
 		}
 	}
 	table := map[string]bool{}
